@@ -345,7 +345,7 @@ func (m *Machine) doSelect(th *Thread, fr *Frame, in *ssa.Select) {
 		idx = handed
 	case fire && len(timers) > 0:
 		idx = choose(timers)
-	case len(ready) > 0 && len(timers) > 0 && m.cfgInt("timersMayFireEarly", 1) == 1:
+	case len(ready) > 0 && len(timers) > 0 && m.cfgInt("timersMayFireEarly", 1) == 1 && m.cfgInt("timersFireOnlyWhenIdle", 0) == 0:
 		idx = choose(append(append([]int(nil), ready...), timers...))
 	case len(ready) > 0:
 		idx = choose(ready)
@@ -378,7 +378,9 @@ func (m *Machine) doSelect(th *Thread, fr *Frame, in *ssa.Select) {
 				idx = choose(timers)
 				break
 			}
-			if m.decide("timer", []*Term{TrueT, TrueT}) == 0 {
+			// timersFireOnlyWhenIdle=1: the timers of the harness are long compared with goroutine
+			// scheduling: one fires only when no other thread can run any more (stated in the bounds)
+			if m.cfgInt("timersFireOnlyWhenIdle", 0) == 0 && m.decide("timer", []*Term{TrueT, TrueT}) == 0 {
 				idx = choose(timers)
 				break
 			}
